@@ -106,6 +106,15 @@ def sorted_provenance(ctx, crate, crs, tag):
                 if c.target("Some") is not None:
                     fav_edges.append((c.bb, c.target("Some")))
         ctx.floor("sorted-provenance" + tag, "test of Candidates.favored", len(fav_edges), 1)
+        # `let pos = match favored { Some(f) => v.iter().position(..), None => None }; if let Some(pos) = pos {..}`: a local Option that
+        # can only be Some on the favored branch carries the same guarantee
+        for c in cs:
+            if c.kind == "discr" and (c.adt or "").endswith("option::Option") and c.src_place is not None and not c.src_place.get("p") \
+                    and c.target("Some") is not None and fav_edges:
+                defs = b.defs_of(c.src_place["l"])
+                if defs and all((idx != "term" and r["k"] == "agg" and r.get("variant") == "None") or q.only_via_edges(b, fav_edges, bb)
+                                for bb, idx, r in defs):
+                    fav_edges.append((c.bb, c.target("Some")))
         n_post = 0
         for i, t in post:
             if t["f"]["name"] in ("deref", "len", "iter", "as_slice"):
@@ -144,6 +153,11 @@ def sorted_provenance(ctx, crate, crs, tag):
                     if pd["k"] == "call" and pd["t"]["f"]["name"] == "position" and \
                             any(isinstance(e, dict) and e.get("as") == "Some" for e in pd.get("proj", [])):
                         pos_ok = _position_closure_compares_favored(crate, b, pd["t"])
+                    elif pd["k"] in ("multi", "undef") and "call:position" in q.leaves(b, hi):
+                        # the position travelled through a local Option (see above): every position(..) call in the function must
+                        # be the search for the favored id
+                        pcs = [pt for pi, pt in b.calls() if pt.get("f") and pt["f"]["name"] == "position"]
+                        pos_ok = bool(pcs) and all(_position_closure_compares_favored(crate, b, pt) for pt in pcs)
             ctx.ob("favored-move" + tag, b.key, "rotate_right(1)", ok_k, where_call(b, i), "rotation amount is 1")
             ctx.ob("favored-move" + tag, b.key, "prefix[0..=pos]", ok_range, where_call(b, i),
                    "the rotated slice is the prefix 0..=pos of the sorted vector")
